@@ -13,6 +13,8 @@ import PP.Gen.Msm
 import PP.Proofs.GenArith
 import PP.Proofs.GenDerive
 import PP.Proofs.Bits
+import PP.Proofs.Pippenger
+import PP.Proofs.Wnaf
 
 set_option linter.unusedSimpArgs false
 set_option linter.unusedVariables false
@@ -701,6 +703,736 @@ theorem wnafForm_fuel_eq (fuel : Nat) (old : List Int) (c w : Nat) :
 
 theorem wnafForm_eq (old : List Int) (c w : Nat) :
     M.wnafForm 300 old (limbsOf 4 c) w = wnafForm old c w := wnafForm_fuel_eq 300 old c w
+end
+
+section
+variable {F : Type} [Add F] [Sub F] [Mul F] [Neg F] [Zero F] [One F] [FieldOps F] [DecidableEq F]
+
+/-! ## the `Wnaf` context (src/wnaf.rs) -/
+
+/-- the generated context of a model context -/
+def ofCtx (ctx : WnafCtx F) : M.Wnaf Unit (List (Jac F)) (List Int) := ⟨ctx.base, ctx.scalar, ()⟩
+
+theorem Wnaf_new_eq : (M.Wnaf.new : M.Wnaf Unit (List (Jac F)) (List Int)) = ofCtx WnafCtx.new := rfl
+
+theorem Wnaf_baseShared_eq (v : M.Wnaf Nat (List (Jac F)) (List Int)) :
+    M.Wnaf.baseShared v = ⟨v.base, [], v.window_size⟩ := rfl
+
+theorem Wnaf_scalarShared_eq (v : M.Wnaf Nat (List (Jac F)) (List Int)) :
+    M.Wnaf.scalarShared v = ⟨[], v.scalar, v.window_size⟩ := rfl
+
+/-- `wnaf.base(b, n)` -/
+theorem Wnaf_ctxBase_eq (rn : Nat → Nat) (ctx : WnafCtx F) (b : Jac F) (n : Nat) (hw : 1 ≤ rn n) :
+    M.Wnaf.ctxBase rn (ofCtx ctx) b n
+      = some (ofCtx ⟨wnafTable ctx.base b (rn n), ctx.scalar⟩,
+              ⟨wnafTable ctx.base b (rn n), ctx.scalar, rn n⟩) := by
+  unfold M.Wnaf.ctxBase ofCtx
+  simp only [wnafTable_eq ctx.base b (rn n) hw]
+
+/-- `wnaf.scalar(k)` -/
+theorem Wnaf_ctxScalar_eq (rs : List Nat → Nat) (ctx : WnafCtx F) (k : Nat) :
+    M.Wnaf.ctxScalar 300 rs (ofCtx ctx) (limbsOf 4 k)
+      = (wnafForm ctx.scalar k (rs (limbsOf 4 k))).map (fun sc =>
+          (ofCtx ⟨ctx.base, sc⟩, (⟨ctx.base, sc, rs (limbsOf 4 k)⟩ : M.Wnaf Nat (List (Jac F)) (List Int)))) := by
+  unfold M.Wnaf.ctxScalar ofCtx
+  simp only [wnafForm_eq]
+  cases wnafForm ctx.scalar k (rs (limbsOf 4 k)) <;> rfl
+
+/-- `.base(b)` on the form that holds a scalar -/
+theorem Wnaf_expBase_eq (v : M.Wnaf Nat (List (Jac F)) (List Int)) (b : Jac F) (hw : 1 ≤ v.window_size) :
+    M.Wnaf.expBase v b
+      = (wnafExp (wnafTable v.base b v.window_size) v.scalar).map (fun r =>
+          ((⟨wnafTable v.base b v.window_size, v.scalar, v.window_size⟩ : M.Wnaf Nat (List (Jac F)) (List Int)), r)) := by
+  unfold M.Wnaf.expBase
+  simp only [wnafTable_eq v.base b v.window_size hw, wnafExp_eq]
+  cases wnafExp (wnafTable v.base b v.window_size) v.scalar <;> rfl
+
+/-- `.scalar(k)` on the form that holds a table -/
+theorem Wnaf_expScalar_eq (v : M.Wnaf Nat (List (Jac F)) (List Int)) (k : Nat) :
+    M.Wnaf.expScalar 300 v (limbsOf 4 k)
+      = (wnafForm v.scalar k v.window_size).bind (fun sc => (wnafExp v.base sc).map (fun r =>
+          ((⟨v.base, sc, v.window_size⟩ : M.Wnaf Nat (List (Jac F)) (List Int)), r))) := by
+  unfold M.Wnaf.expScalar
+  simp only [wnafForm_eq, wnafExp_eq]
+  cases wnafForm v.scalar k v.window_size with
+  | none => rfl
+  | some sc =>
+    simp only [Option.bind_some]
+    cases wnafExp v.base sc <;> rfl
+
+/-- `wnaf.base(b, n).scalar(k)`: result and the context afterwards (the table stays in `ctx.base`, the
+    digits are written through the `&mut` borrow of `ctx.scalar`) -/
+theorem Wnaf_baseThenScalar_eq (rc : WnafRec) (ctx : WnafCtx F) (b : Jac F) (n k : Nat)
+    (hw : 1 ≤ recommendForNumScalars rc.tbl rc.base n) :
+    (match M.Wnaf.ctxBase (recommendForNumScalars rc.tbl rc.base) (ofCtx ctx) b n with
+      | none => none
+      | some (c1, v) =>
+        match M.Wnaf.expScalar 300 v (limbsOf 4 k) with
+        | none => none
+        | some (v', r) => some (r, (⟨c1.base, v'.scalar⟩ : WnafCtx F)))
+      = ctx.baseThenScalar rc b n k := by
+  rw [Wnaf_ctxBase_eq _ _ _ _ hw]
+  dsimp only
+  rw [Wnaf_expScalar_eq]
+  unfold WnafCtx.baseThenScalar ofCtx
+  dsimp only
+  cases wnafForm ctx.scalar k (recommendForNumScalars rc.tbl rc.base n) with
+  | none => rfl
+  | some sc =>
+    simp only [Option.bind_some, Option.bind_eq_bind, Option.pure_def]
+    cases wnafExp (wnafTable ctx.base b (recommendForNumScalars rc.tbl rc.base n)) sc <;> rfl
+
+/-- `wnaf.scalar(k).base(b)` -/
+theorem Wnaf_scalarThenBase_eq (rc : WnafRec) (rs : List Nat → Nat) (ctx : WnafCtx F) (k : Nat) (b : Jac F)
+    (hrs : rs (limbsOf 4 k) = recommendForScalar rc.ladder rc.dflt (k % 2 ^ 256))
+    (hw : 1 ≤ recommendForScalar rc.ladder rc.dflt (k % 2 ^ 256)) :
+    (match M.Wnaf.ctxScalar 300 rs (ofCtx ctx) (limbsOf 4 k) with
+      | none => none
+      | some (c1, v) =>
+        match M.Wnaf.expBase v b with
+        | none => none
+        | some (v', r) => some (r, (⟨v'.base, c1.scalar⟩ : WnafCtx F)))
+      = ctx.scalarThenBase rc k b := by
+  rw [Wnaf_ctxScalar_eq, hrs]
+  unfold WnafCtx.scalarThenBase
+  dsimp only
+  cases wnafForm ctx.scalar k (recommendForScalar rc.ladder rc.dflt (k % 2 ^ 256)) with
+  | none => rfl
+  | some sc =>
+    simp only [Option.map_some, Option.bind_some, Option.bind_eq_bind, Option.pure_def]
+    rw [Wnaf_expBase_eq _ _ hw]
+    unfold ofCtx
+    dsimp only
+    cases wnafExp (wnafTable ctx.base b (recommendForScalar rc.ladder rc.dflt (k % 2 ^ 256))) sc <;> rfl
+end
+
+section
+variable {F : Type} [Add F] [Sub F] [Mul F] [Neg F] [Zero F] [One F] [FieldOps F] [DecidableEq F]
+
+/-! ## `precomp_256` -/
+
+theorem idx_mid {α : Type} (A : List α) (x : α) (B : List α) (n : Nat) (hn : n = A.length) :
+    (A ++ x :: B)[n]? = some x := by
+  subst hn; simp
+
+theorem setIdx_mid {α : Type} (A : List α) (x y : α) (B : List α) (n : Nat) (hn : n = A.length) :
+    M.setIdx (A ++ x :: B) n y = some (A ++ y :: B) := by
+  subst hn
+  unfold M.setIdx
+  rw [if_pos (by simp)]
+  simp
+
+theorem mapM_length {α β : Type} (f : α → Option β) : ∀ (l : List α) (r : List β), l.mapM f = some r → r.length = l.length := by
+  intro l
+  induction l with
+  | nil => intro r h; simp at h; subst h; rfl
+  | cons x xs ih =>
+    intro r h
+    rw [List.mapM_cons] at h
+    cases hx : f x with
+    | none => rw [hx] at h; simp at h
+    | some y =>
+      rw [hx] at h
+      cases hxs : xs.mapM f with
+      | none => rw [hxs] at h; simp at h
+      | some ys =>
+        rw [hxs] at h
+        simp at h
+        subst h
+        simp [ih ys hxs]
+
+/-- the body of the inner `for` loop of `precomp_256` (the shape of the generated code) -/
+def p256Inner (pl : Nat) (buf : List (Aff F)) (i : Nat) : Option (List (Aff F)) :=
+  match buf[i]? with
+  | none => none
+  | some t2 =>
+    match M.setIdx buf (i + pl) t2 with
+    | none => none
+    | some buf =>
+      match buf[i]? with
+      | none => none
+      | some t3 =>
+        match buf[pl]? with
+        | none => none
+        | some t4 =>
+          match ((t3.toJac).addMixed t4).toAffine with
+          | none => none
+          | some t5 =>
+            match M.setIdx buf (i + pl) t5 with
+            | none => none
+            | some buf => some buf
+
+theorem p256_inner (top : Aff F) (Mm : List (Aff F)) (g : List (Aff F) → Nat → Option (List (Aff F)))
+    (hg : ∀ buf i, g buf i = p256Inner Mm.length buf i) :
+    ∀ m j done tail, 1 ≤ j → j + m = Mm.length → done.length + 1 = j → m ≤ tail.length →
+      M.forIn (List.range' j m) (Mm ++ top :: (done ++ tail)) g
+        = ((Mm.drop j).mapM (fun (x : Aff F) => ((x.toJac).addMixed top).toAffine)).map
+            (fun r => Mm ++ top :: (done ++ r ++ tail.drop m)) := by
+  intro m
+  induction m with
+  | zero =>
+    intro j done tail hj hjm hd hm
+    have : j = Mm.length := by omega
+    subst this
+    simp
+  | succ m ih =>
+    intro j done tail hj hjm hd hm
+    have hjl : j < Mm.length := by omega
+    obtain ⟨x, tail', rfl⟩ : ∃ x tail', tail = x :: tail' := by
+      cases tail with
+      | nil => simp at hm
+      | cons x t => exact ⟨x, t, rfl⟩
+    have hlenA : j + Mm.length = (Mm ++ top :: done).length := by simp; omega
+    have hre : ∀ y : Aff F, Mm ++ top :: (done ++ y :: tail') = (Mm ++ top :: done) ++ y :: tail' := by
+      intro y; simp
+    have hread : ∀ y : Aff F, ((Mm ++ top :: done) ++ y :: tail')[j]? = some Mm[j] := by
+      intro y
+      rw [List.append_assoc, List.getElem?_append_left hjl, List.getElem?_eq_getElem hjl]
+    have hmid : ∀ y : Aff F, ((Mm ++ top :: done) ++ y :: tail')[Mm.length]? = some top := by
+      intro y
+      rw [List.append_assoc]
+      exact idx_mid Mm top _ _ rfl
+    have hset : ∀ y z : Aff F, M.setIdx ((Mm ++ top :: done) ++ y :: tail') (j + Mm.length) z
+        = some ((Mm ++ top :: done) ++ z :: tail') := fun y z => setIdx_mid _ _ _ _ _ hlenA
+    rw [List.range'_succ, forIn_cons, hg, p256Inner, List.drop_eq_getElem_cons hjl, List.mapM_cons]
+    simp only [hre, hread, hmid, hset]
+    cases he : ((Mm[j].toJac).addMixed top).toAffine with
+    | none => simp
+    | some t5 =>
+      simp only
+      have := ih (j + 1) (done ++ [t5]) tail' (by omega) (by omega) (by simp; omega) (by simpa using hm)
+      simp only [List.append_assoc, List.singleton_append, List.cons_append, List.nil_append] at this ⊢
+      rw [this]
+      cases (Mm.drop (j + 1)).mapM (fun (x : Aff F) => ((x.toJac).addMixed top).toAffine) with
+      | none => simp
+      | some r => simp
+
+/-- the body of the `while` loop of `precomp_256` (the shape of the generated code) -/
+def p256Body (st : List (Aff F) × Nat × Jac F) : Option (List (Aff F) × Nat × Jac F) :=
+  match st.2.2.toAffine with
+  | none => none
+  | some t1 =>
+    match M.setIdx st.1 st.2.1 t1 with
+    | none => none
+    | some pre =>
+      match M.forIn (List.range' 1 (st.2.1 - 1)) pre (fun pre i => p256Inner st.2.1 pre i) with
+      | none => none
+      | some pre => some (pre, st.2.1 * 2, if st.2.1 < 128 then st.2.2.doubleN 32 else st.2.2)
+
+theorem p256_stage (Mm tail : List (Aff F)) (pw : Jac F) (hM : 1 ≤ Mm.length) (ht : Mm.length ≤ tail.length) :
+    p256Body (Mm ++ tail, Mm.length, pw)
+      = (precomp256Stage Mm pw).map (fun M' =>
+          (M' ++ tail.drop Mm.length, Mm.length * 2, if Mm.length < 128 then pw.doubleN 32 else pw)) := by
+  unfold p256Body precomp256Stage
+  dsimp only
+  cases pw.toAffine with
+  | none => rfl
+  | some top =>
+    obtain ⟨y, tail', rfl⟩ : ∃ y tail', tail = y :: tail' := by
+      cases tail with
+      | nil => exfalso; simp only [List.length_nil] at ht; omega
+      | cons y t => exact ⟨y, t, rfl⟩
+    dsimp only
+    rw [setIdx_mid Mm y top tail' _ rfl]
+    dsimp only
+    have := p256_inner top Mm (fun pre i => p256Inner Mm.length pre i) (fun _ _ => rfl) (Mm.length - 1) 1 [] tail'
+      (by omega) (by omega) rfl (by simp at ht; omega)
+    simp only [List.nil_append] at this
+    rw [this]
+    simp only [Option.bind_eq_bind, Option.bind_some, Option.pure_def]
+    cases (Mm.drop 1).mapM (fun (x : Aff F) => ((x.toJac).addMixed top).toAffine) with
+    | none => rfl
+    | some r =>
+      simp only [Option.map_some, Option.bind_some]
+      have hd : List.drop Mm.length (y :: tail') = List.drop (Mm.length - 1) tail' := by
+        obtain ⟨l, hl⟩ : ∃ l, Mm.length = l + 1 := ⟨Mm.length - 1, by omega⟩
+        rw [hl, List.drop_succ_cons, Nat.add_sub_cancel]
+      rw [hd]
+      simp
+
+theorem pow_facts : ∀ t, t ≤ 8 → ((2 ^ t ≤ 128 ↔ t ≤ 7) ∧ (2 ^ t < 128 ↔ t < 7) ∧ (t ≤ 7 → 2 * 2 ^ t ≤ 256) ∧ 1 ≤ 2 ^ t) := by
+  decide
+
+theorem p256_loop (pre0 : List (Aff F)) (h256 : 256 ≤ pre0.length)
+    (cond : List (Aff F) × Nat × Jac F → Bool)
+    (body : List (Aff F) × Nat × Jac F → Option (List (Aff F) × Nat × Jac F))
+    (hc : ∀ st, cond st = decide (st.2.1 ≤ 128)) (hb : ∀ st, body st = p256Body st) :
+    ∀ n t extra Mm pw, t + n = 8 → Mm.length = 2 ^ t →
+      (match M.whileFuel (n + extra) (Mm ++ pre0.drop (2 ^ t), 2 ^ t, pw) cond body with
+        | none => none
+        | some (pre, _, _) => some pre)
+        = (precomp256Loop n Mm pw).map (fun r => r ++ pre0.drop 256) := by
+  intro n
+  induction n with
+  | zero =>
+    intro t extra Mm pw ht hM
+    have : t = 8 := by omega
+    subst this
+    have hcf : cond (Mm ++ pre0.drop (2 ^ 8), 2 ^ 8, pw) = false := by rw [hc]; simp
+    cases extra with
+    | zero => rw [Nat.zero_add, M.whileFuel, hcf]; rfl
+    | succ e => rw [Nat.zero_add, M.whileFuel, hcf]; rfl
+  | succ n ih =>
+    intro t extra Mm pw ht hM
+    obtain ⟨f1, f2, f3, f4⟩ := pow_facts t (by omega)
+    have ht7 : t ≤ 7 := by omega
+    have hct : cond (Mm ++ pre0.drop (2 ^ t), 2 ^ t, pw) = true := by
+      rw [hc]; exact decide_eq_true (f1.2 ht7)
+    have hfuel : n + 1 + extra = (n + extra) + 1 := by omega
+    rw [hfuel, M.whileFuel, hct, if_pos rfl, hb, ← hM,
+      p256_stage Mm (pre0.drop Mm.length) pw (by omega) (by rw [List.length_drop]; have := f3 ht7; omega),
+      precomp256Loop]
+    cases hst : precomp256Stage Mm pw with
+    | none => rfl
+    | some M' =>
+      simp only [Option.map_some, Option.bind_eq_bind, Option.bind_some]
+      have hM' : M'.length = 2 ^ (t + 1) := by
+        unfold precomp256Stage at hst
+        cases h1 : pw.toAffine with
+        | none => rw [h1] at hst; simp at hst
+        | some top =>
+          rw [h1] at hst
+          simp only [Option.bind_eq_bind, Option.bind_some, Option.pure_def] at hst
+          cases h2 : (Mm.drop 1).mapM (fun (e : Aff F) => ((e.toJac).addMixed top).toAffine) with
+          | none => rw [h2] at hst; simp at hst
+          | some r =>
+            rw [h2] at hst
+            simp only [Option.bind_some, Option.some.injEq] at hst
+            have := mapM_length _ _ _ h2
+            rw [← hst]
+            simp [this, hM, Nat.pow_succ]
+            omega
+      have hdd : List.drop Mm.length (List.drop Mm.length pre0) = List.drop (2 ^ (t + 1)) pre0 := by
+        rw [List.drop_drop, hM, Nat.pow_succ]; congr 1; omega
+      have hpw : (if Mm.length < 128 then pw.doubleN 32 else pw) = (if n = 0 then pw else pw.doubleN 32) := by
+        rw [hM]
+        by_cases hn : n = 0
+        · have : ¬ (2 ^ t < 128) := by rw [f2]; omega
+          simp [hn, this]
+        · have : 2 ^ t < 128 := by rw [f2]; omega
+          simp [hn, this]
+      have h2t : Mm.length * 2 = 2 ^ (t + 1) := by rw [hM, Nat.pow_succ]
+      rw [hdd, hpw, h2t]
+      exact ih (t + 1) extra M' _ (by omega) hM'
+
+theorem precomp256_eq (fuel : Nat) (hfuel : 8 ≤ fuel) (a : Aff F) (pre : List (Aff F)) (h : 256 ≤ pre.length) :
+    M.Aff.precomp256 fuel a pre = (a.precomp256).map (fun t => t ++ pre.drop 256) := by
+  obtain ⟨y, tail, rfl⟩ : ∃ y tail, pre = y :: tail := by
+    cases pre with
+    | nil => simp at h
+    | cons y t => exact ⟨y, t, rfl⟩
+  obtain ⟨extra, rfl⟩ : ∃ extra, fuel = 8 + extra := ⟨fuel - 8, by omega⟩
+  unfold M.Aff.precomp256 Aff.precomp256
+  simp only [Aff_zero_eq, Aff_toJac_eq, Jac_double_eq, Jac_toAffine_eq, Jac_addMixed_eq, foldl_double]
+  have hs : M.setIdx (y :: tail) 0 (Aff.zero : Aff F) = some ([Aff.zero] ++ tail) := setIdx_mid [] y Aff.zero tail 0 rfl
+  rw [hs]
+  dsimp only
+  refine p256_loop (y :: tail) h _ _ (fun st => rfl) ?_ 8 0 extra [Aff.zero] a.toJac rfl rfl
+  intro st
+  rfl
+end
+
+section
+variable {F : Type} [Add F] [Sub F] [Mul F] [Neg F] [Zero F] [One F] [FieldOps F] [DecidableEq F]
+
+/-! ## `sum_of_products_pippinger` -/
+
+/-- one point of the accumulation loop, as in the model's `pipAccumulate`, on a bucket LIST -/
+def accStep (bsi window : Nat) (st : List (Jac F) × Nat) (p : Aff F) (s : List Nat) : Option (List (Jac F) × Nat) :=
+  if pipAssertFails s bsi window then none
+  else
+    if pipDigit s bsi window > 0 then
+      match st.1[pipDigit s bsi window]? with
+      | none => none
+      | some b => some (st.1.set (pipDigit s bsi window) (b.addMixed p), max st.2 (pipDigit s bsi window))
+    else some st
+
+theorem acc_loop (points : List (Aff F)) (ks : List Nat) (bsi window : Nat)
+    (g : List (Jac F) × Nat → Nat → Option (List (Jac F) × Nat))
+    (hg : ∀ st i (hp : i < points.length) (hs : i < ks.length),
+      g st i = accStep bsi window st points[i] (limbsOf 4 ks[i])) :
+    ∀ m j (L : List (Jac F)) (mb : Nat), j + m ≤ points.length → j + m ≤ ks.length →
+      M.forIn (List.range' j m) (L, mb) g
+        = (pipAccumulate bsi window (((List.zip points (ks.map (limbsOf 4))).drop j).take m) (L.toArray, mb)).map
+            (fun x => (x.1.toList, x.2)) := by
+  intro m
+  induction m with
+  | zero => intro j L mb _ _; simp [pipAccumulate]
+  | succ m ih =>
+    intro j L mb hp hs
+    have hjp : j < points.length := by omega
+    have hjs : j < ks.length := by omega
+    have hjz : j < (List.zip points (ks.map (limbsOf 4))).length := by simp; omega
+    rw [List.range'_succ, forIn_cons, hg _ _ hjp hjs, List.drop_eq_getElem_cons hjz, List.take_succ_cons,
+      List.getElem_zip, List.getElem_map, pipAccumulate, accStep]
+    by_cases ha : pipAssertFails (limbsOf 4 ks[j]) bsi window = true
+    · simp [ha]
+    · simp only [ha, Bool.false_eq_true, if_false]
+      by_cases hd : pipDigit (limbsOf 4 ks[j]) bsi window > 0
+      · simp only [hd, if_true, List.getElem?_toArray]
+        cases L[pipDigit (limbsOf 4 ks[j]) bsi window]? with
+        | none => rfl
+        | some b =>
+          simp only
+          rw [ih (j + 1) _ _ (by omega) (by omega)]
+          simp
+      · simp only [hd, if_false]
+        exact ih (j + 1) _ _ (by omega) (by omega)
+
+/-- one iteration of the running-sum sweep (the shape of the generated code) -/
+def redStep (st : Jac F × List (Jac F)) (i : Nat) : Option (Jac F × List (Jac F)) :=
+  match st.2[i + 1]? with
+  | none => none
+  | some temp =>
+    match st.2[i]? with
+    | none => none
+    | some bi =>
+      match (st.2.set i (bi.add temp))[i]? with
+      | none => none
+      | some bi' =>
+        match M.setIdx (st.2.set i (bi.add temp)) (i + 1) Jac.zero with
+        | none => none
+        | some L2 => some (st.1.add bi', L2)
+
+theorem red_loop (h : Jac F × List (Jac F) → Nat → Option (Jac F × List (Jac F)))
+    (hh : ∀ st i, h st i = redStep st i) :
+    ∀ n (res : Jac F) (L : List (Jac F)),
+      M.forIn (List.range' 1 n).reverse (res, L) h
+        = (pipReduceLoop n (L.toArray, res)).map (fun x => (x.2, x.1.toList)) := by
+  intro n
+  induction n with
+  | zero => intro res L; rfl
+  | succ n ih =>
+    intro res L
+    rw [List.range'_concat, List.reverse_append, List.reverse_singleton, List.singleton_append, forIn_cons, hh,
+      redStep, pipReduceLoop]
+    simp only [Nat.one_mul, List.getElem?_toArray, Nat.add_comm 1 n]
+    cases h2 : L[n + 1 + 1]? with
+    | none => rfl
+    | some temp =>
+      cases h1 : L[n + 1]? with
+      | none => rfl
+      | some bi =>
+        have hlt1 : n + 1 < L.length := (List.getElem?_eq_some_iff.1 h1).1
+        have hlt2 : n + 1 + 1 < L.length := (List.getElem?_eq_some_iff.1 h2).1
+        simp only
+        rw [List.getElem?_set_self (by omega), setIdx_of_lt _ (by rw [List.length_set]; exact hlt2)]
+        simp only
+        rw [ih]
+        simp
+
+/-- the state of the outer loop of `sum_of_products_pippinger`: `(res, buckets, bit_sequence_index, num_doubles)` -/
+abbrev PipSt (F : Type) := Jac F × List (Jac F) × Nat × Nat
+
+theorem pip_red_core (h : Jac F × List (Jac F) → Nat → Option (Jac F × List (Jac F)))
+    (hh : ∀ st i, h st i = redStep st i) (L : List (Jac F)) (res : Jac F) (mb : Nat)
+    (K : Jac F → List (Jac F) → Option (PipSt F × Bool)) :
+    (match L[mb]? with
+      | none => none
+      | some t23 =>
+        match M.forIn (List.range' 1 (mb - 1)).reverse (res.add t23, L) h with
+        | none => none
+        | some (r, L') =>
+          match M.setIdx L' 1 Jac.zero with
+          | none => none
+          | some L'' => K r L'')
+      = (match pipReduce L.toArray res mb with
+          | none => none
+          | some (A, r) => K r A.toList) := by
+  unfold pipReduce
+  simp only [List.getElem?_toArray, Option.bind_eq_bind]
+  cases L[mb]? with
+  | none => rfl
+  | some t23 =>
+    simp only [Option.bind_some]
+    rw [red_loop h hh]
+    cases pipReduceLoop (mb - 1) (L.toArray, res.add t23) with
+    | none => rfl
+    | some x =>
+      obtain ⟨A, r⟩ := x
+      simp only [Option.map_some, Option.bind_some, M.setIdx, Array.length_toList]
+      by_cases hs : A.size ≤ 1
+      · have : ¬ (1 < A.size) := by omega
+        simp [hs, this]
+      · have : 1 < A.size := by omega
+        simp [hs, this]
+
+theorem pip_acc_core (points : List (Aff F)) (ks : List Nat) (window bsi n : Nat) (hw1 : 1 ≤ window)
+    (hw : window ≤ 64) (hn : n = min points.length ks.length) (L : List (Jac F))
+    (g1 : Nat → List (Jac F) × Nat → Nat → Option (List (Jac F) × Nat))
+    (g2 : Nat → Nat → Nat → Nat → Nat → List (Jac F) × Nat → Nat → Option (List (Jac F) × Nat))
+    (g3 : Nat → List (Jac F) × Nat → Nat → Option (List (Jac F) × Nat))
+    (hg1 : bsi &&& 63 < window - 1 → bsi >>> 6 = 0 → ∀ st i (hp : i < points.length) (hs : i < ks.length),
+      g1 (2 ^ ((bsi &&& 63) + 1) - 1) st i = accStep bsi window st points[i] (limbsOf 4 ks[i]))
+    (hg2 : bsi &&& 63 < window - 1 → bsi >>> 6 ≠ 0 → ∀ st i (hp : i < points.length) (hs : i < ks.length),
+      g2 (2 ^ ((bsi &&& 63) + 1) - 1) (window - 1 - (bsi &&& 63)) (2 ^ (window - 1 - (bsi &&& 63)) - 1)
+        (64 - (window - 1 - (bsi &&& 63))) (bsi >>> 6 - 1) st i = accStep bsi window st points[i] (limbsOf 4 ks[i]))
+    (hg3 : ¬ (bsi &&& 63 < window - 1) → ∀ st i (hp : i < points.length) (hs : i < ks.length),
+      g3 ((bsi &&& 63) - (window - 1)) st i = accStep bsi window st points[i] (limbsOf 4 ks[i]))
+    (K : List (Jac F) → Nat → Option (PipSt F × Bool)) :
+    (match
+        (if bsi &&& 63 < window - 1 then
+          match
+            (if bsi >>> 6 = 0 then
+              match M.usub (2 ^ ((bsi &&& 63) + 1)) 1 with
+              | none => none
+              | some t3 =>
+                match M.forIn (List.range' 0 n) (L, 0) (g1 t3) with
+                | none => none
+                | some (b, m) => some (b, m)
+            else
+              match M.usub (2 ^ ((bsi &&& 63) + 1)) 1 with
+              | none => none
+              | some t8 =>
+                match M.usub (window - 1) (bsi &&& 63) with
+                | none => none
+                | some t9 =>
+                  match M.usub (2 ^ t9) 1 with
+                  | none => none
+                  | some t10 =>
+                    match M.usub 64 t9 with
+                    | none => none
+                    | some t11 =>
+                      match M.usub (bsi >>> 6) 1 with
+                      | none => none
+                      | some t12 =>
+                        match M.forIn (List.range' 0 n) (L, 0) (g2 t8 t9 t10 t11 t12) with
+                        | none => none
+                        | some (b, m) => some (b, m)) with
+          | none => none
+          | some (b, m) => some (b, m)
+        else
+          match M.usub (bsi &&& 63) (window - 1) with
+          | none => none
+          | some t18 =>
+            match M.forIn (List.range' 0 n) (L, 0) (g3 t18) with
+            | none => none
+            | some (b, m) => some (b, m)) with
+      | none => none
+      | some (b, m) => K b m)
+      = (match pipAccumulate bsi window (List.zip points (ks.map (limbsOf 4))) (L.toArray, 0) with
+          | none => none
+          | some (A, m) => K A.toList m) := by
+  have hacc : ∀ g : List (Jac F) × Nat → Nat → Option (List (Jac F) × Nat),
+      (∀ st i (hp : i < points.length) (hs : i < ks.length),
+        g st i = accStep bsi window st points[i] (limbsOf 4 ks[i])) →
+      M.forIn (List.range' 0 n) (L, 0) g
+        = (pipAccumulate bsi window (List.zip points (ks.map (limbsOf 4))) (L.toArray, 0)).map
+            (fun x => (x.1.toList, x.2)) := by
+    intro g hg
+    have := acc_loop points ks bsi window g hg n 0 L 0 (by omega) (by omega)
+    rw [List.drop_zero, List.take_of_length_le (by simp; omega)] at this
+    exact this
+  have h2pow : ∀ x : Nat, M.usub (2 ^ x) 1 = some (2 ^ x - 1) := fun x => usub_of_le Nat.one_le_two_pow
+  by_cases hb1 : bsi &&& 63 < window - 1
+  · by_cases hb2 : bsi >>> 6 = 0
+    · simp only [hb1, hb2, if_true, h2pow]
+      rw [hacc _ (hg1 hb1 hb2)]
+      cases pipAccumulate bsi window (List.zip points (ks.map (limbsOf 4))) (L.toArray, 0) with
+      | none => rfl
+      | some x => rfl
+    · have hle : bsi &&& 63 ≤ window - 1 := by omega
+      have hle2 : window - 1 - (bsi &&& 63) ≤ 64 := by omega
+      have hle3 : 1 ≤ bsi >>> 6 := by omega
+      simp only [hb1, hb2, if_true, if_false, h2pow, usub_of_le hle, usub_of_le hle2, usub_of_le hle3]
+      rw [hacc _ (hg2 hb1 hb2)]
+      cases pipAccumulate bsi window (List.zip points (ks.map (limbsOf 4))) (L.toArray, 0) with
+      | none => rfl
+      | some x => rfl
+  · have hle : window - 1 ≤ bsi &&& 63 := by omega
+    simp only [hb1, if_false, usub_of_le hle]
+    rw [hacc _ (hg3 hb1)]
+    cases pipAccumulate bsi window (List.zip points (ks.map (limbsOf 4))) (L.toArray, 0) with
+    | none => rfl
+    | some x => rfl
+
+/-- one pass of the outer loop, in terms of the model's functions -/
+def pipIter (pairs : List (Aff F × List Nat)) (window : Nat) (st : PipSt F) : Option (PipSt F × Bool) :=
+  match pipAccumulate st.2.2.1 window pairs (st.2.1.toArray, 0) with
+  | none => none
+  | some (A, mb) =>
+    match pipReduce A (st.1.doubleN st.2.2.2) mb with
+    | none => none
+    | some (A, r) =>
+      if st.2.2.1 < window then some ((r, A.toList, st.2.2.1, st.2.2.2), true)
+      else some ((r, A.toList, st.2.2.1 - window,
+        if st.2.2.1 - window < window - 1 then st.2.2.1 - window + 1 else window), false)
+
+theorem pip_outer (pairs : List (Aff F × List Nat)) (window : Nat)
+    (body : PipSt F → Option (PipSt F × Bool))
+    (hb : ∀ st, st.2.2.1 ≤ 255 → body st = pipIter pairs window st) :
+    ∀ fuel res (L : List (Jac F)) bsi nd, bsi ≤ 255 →
+      (match M.loopFuel fuel (res, L, bsi, nd) body with
+        | none => none
+        | some (r, _, _, _) => some r) = pipLoop pairs window fuel bsi nd L.toArray res := by
+  intro fuel
+  induction fuel with
+  | zero => intro res L bsi nd _; rfl
+  | succ fuel ih =>
+    intro res L bsi nd hbsi
+    rw [M.loopFuel, hb _ hbsi, pipLoop, pipIter]
+    simp only [Option.bind_eq_bind, Option.pure_def]
+    cases pipAccumulate bsi window pairs (L.toArray, 0) with
+    | none => rfl
+    | some x =>
+      obtain ⟨A, mb⟩ := x
+      simp only [Option.bind_some]
+      cases pipReduce A (res.doubleN nd) mb with
+      | none => rfl
+      | some y =>
+        obtain ⟨A', r⟩ := y
+        simp only [Option.bind_some]
+        by_cases hlt : bsi < window
+        · simp only [hlt, if_true]
+        · simp only [hlt, if_false]
+          have := ih r A'.toList (bsi - window) (if bsi - window < window - 1 then bsi - window + 1 else window) (by omega)
+          simpa using this
+
+theorem sumOfProductsPippinger_eq (points : List (Aff F)) (ks : List Nat) (window : Nat) (hw : window ≤ 64) :
+    M.Aff.sumOfProductsPippinger 257 points (ks.map (limbsOf 4)) window
+      = sumOfProductsPippinger points ks window := by
+  unfold M.Aff.sumOfProductsPippinger sumOfProductsPippinger
+  by_cases h0 : window = 0
+  · subst h0; rfl
+  have hw1 : 1 ≤ window := by omega
+  simp only [h0, if_false, usub_of_le hw1, Nat.one_shiftLeft, usub_of_le (Nat.one_le_two_pow (n := window)),
+    Jac_zero_eq, Jac_double_eq, Jac_add_eq, Jac_addMixed_eq, foldl_double, List.length_map]
+  refine pip_outer (List.zip points (ks.map (limbsOf 4))) window _ ?_ 257 Jac.zero
+    (List.replicate (2 ^ window) Jac.zero) 255 0 (by decide)
+  intro st hbsi
+  obtain ⟨res, L, bsi, nd⟩ := st
+  dsimp only at hbsi ⊢
+  have hmin : (if points.length < ks.length then points.length else ks.length) = min points.length ks.length := by
+    split <;> omega
+  have hwi : bsi >>> 6 < 4 := by rw [Nat.shiftRight_eq_div_pow]; omega
+  have hidx : ∀ (k j : Nat), j < 4 → (limbsOf 4 k)[j]? = some ((limbsOf 4 k).getD j 0) := by
+    intro k j hj
+    rw [List.getD_eq_getElem?_getD, List.getElem?_eq_getElem (by simp; omega)]; rfl
+  have hmax : ∀ a b : Nat, (if a > b then a else b) = max b a := by
+    intro a b; split <;> omega
+  rw [hmin]
+  unfold pipIter
+  dsimp only
+  refine (pip_acc_core points ks window bsi _ hw1 hw rfl L _ _ _ ?_ ?_ ?_ _).trans ?_
+  · intro hb1 hb2 st i hp hs
+    obtain ⟨B, mb⟩ := st
+    have hwi0 : (0 : Nat) < 4 := by decide
+    simp only [List.getElem?_map, List.getElem?_eq_getElem hs, List.getElem?_eq_getElem hp, Option.map_some,
+      hb2, hidx _ 0 hwi0, accStep, pipAssertFails, pipDigit, hb1, if_true, Bool.false_eq_true, if_false,
+      Nat.one_shiftLeft, hmax]
+    split <;> (rename_i heq; exact heq.symm)
+  · intro hb1 hb2 st i hp hs
+    obtain ⟨B, mb⟩ := st
+    have hwi1 : bsi >>> 6 - 1 < 4 := by omega
+    simp only [List.getElem?_map, List.getElem?_eq_getElem hs, List.getElem?_eq_getElem hp, Option.map_some,
+      hidx _ _ hwi, hidx _ _ hwi1, accStep, pipAssertFails, pipDigit, hb1, hb2, if_true, Bool.false_eq_true,
+      if_false, Nat.one_shiftLeft, hmax]
+    split <;> (rename_i heq; exact heq.symm)
+  · intro hb1 st i hp hs
+    obtain ⟨B, mb⟩ := st
+    simp only [List.getElem?_map, List.getElem?_eq_getElem hs, List.getElem?_eq_getElem hp, Option.map_some,
+      hidx _ _ hwi, accStep, pipAssertFails, pipDigit, hb1, if_false, hmax]
+    generalize (limbsOf 4 ks[i]).getD 3 0 >>> 63 = v
+    by_cases ha : bsi ≠ 255 ∨ v = 0
+    · have : (bsi == 255 && v != 0) = false := by
+        rcases ha with h | h
+        · simp [h]
+        · simp [h]
+      simp only [ha, not_true_eq_false, if_false, this, Bool.false_eq_true]
+      split <;> (rename_i heq; exact heq.symm)
+    · have : (bsi == 255 && v != 0) = true := by
+        simp only [not_or, ne_eq, not_not] at ha
+        simp [ha.1, ha.2]
+      simp only [ha, not_false_eq_true, if_true, this]
+  · cases pipAccumulate bsi window (points.zip (List.map (limbsOf 4) ks)) (L.toArray, 0) with
+    | none => rfl
+    | some x =>
+      obtain ⟨A, mb⟩ := x
+      dsimp only
+      refine (pip_red_core _ (fun _ _ => rfl) A.toList (res.doubleN nd) mb _).trans ?_
+      rw [Array.toArray_toList]
+      cases pipReduce A (res.doubleN nd) mb with
+      | none => rfl
+      | some y =>
+        obtain ⟨A', r⟩ := y
+        dsimp only
+        by_cases hlt : bsi < window
+        · simp only [hlt, if_true]
+        · simp only [hlt, if_false, usub_of_le (Nat.le_of_not_lt hlt)]
+end
+
+section
+variable {F : Type} [Add F] [Sub F] [Mul F] [Neg F] [Zero F] [One F] [FieldOps F] [DecidableEq F]
+
+/-! ## `sum_of_products`, and the `Wnaf` context with the tables of G1 / G2 -/
+
+theorem sumOfProducts_eq (points : List (Aff F)) (ks : List Nat) :
+    M.Aff.sumOfProducts 257 points (ks.map (limbsOf 4)) = sumOfProducts points ks := by
+  unfold M.Aff.sumOfProducts sumOfProducts
+  have hmin : (if points.length < ks.length then points.length else ks.length) = min points.length ks.length := by
+    split <;> omega
+  simp only [List.length_map, findPippingerWindow_eq, hmin]
+  rw [sumOfProductsPippinger_eq _ _ _
+    (by have := (PP.Pip.findPippingerWindow_range (min points.length ks.length)).2; omega)]
+  cases sumOfProductsPippinger points ks (findPippingerWindow (min points.length ks.length)) <;> rfl
+
+theorem recNum_G1 : M.Jac.recommendedWnafForNumScalars M.G1.empiricalRecommendedWnafForNumScalars
+    = recommendForNumScalars g1Rec.tbl g1Rec.base := by
+  funext n; exact G1_recNum_eq n
+
+theorem recNum_G2 : M.Jac.recommendedWnafForNumScalars M.G2.empiricalRecommendedWnafForNumScalars
+    = recommendForNumScalars g2Rec.tbl g2Rec.base := by
+  funext n; exact G2_recNum_eq n
+
+theorem Wnaf_baseThenScalar_G1 (ctx : WnafCtx F) (b : Jac F) (n k : Nat) :
+    (match M.Wnaf.ctxBase (M.Jac.recommendedWnafForNumScalars M.G1.empiricalRecommendedWnafForNumScalars)
+        (ofCtx ctx) b n with
+      | none => none
+      | some (c1, v) =>
+        match M.Wnaf.expScalar 300 v (limbsOf 4 k) with
+        | none => none
+        | some (v', r) => some (r, (⟨c1.base, v'.scalar⟩ : WnafCtx F)))
+      = ctx.baseThenScalar g1Rec b n k := by
+  rw [recNum_G1]
+  exact Wnaf_baseThenScalar_eq g1Rec ctx b n k
+    (by have := (recommendForNumScalars_range g1Rec.tbl g1Rec.base n).1; exact Nat.le_trans (by decide) this)
+
+theorem Wnaf_baseThenScalar_G2 (ctx : WnafCtx F) (b : Jac F) (n k : Nat) :
+    (match M.Wnaf.ctxBase (M.Jac.recommendedWnafForNumScalars M.G2.empiricalRecommendedWnafForNumScalars)
+        (ofCtx ctx) b n with
+      | none => none
+      | some (c1, v) =>
+        match M.Wnaf.expScalar 300 v (limbsOf 4 k) with
+        | none => none
+        | some (v', r) => some (r, (⟨c1.base, v'.scalar⟩ : WnafCtx F)))
+      = ctx.baseThenScalar g2Rec b n k := by
+  rw [recNum_G2]
+  exact Wnaf_baseThenScalar_eq g2Rec ctx b n k
+    (by have := (recommendForNumScalars_range g2Rec.tbl g2Rec.base n).1; exact Nat.le_trans (by decide) this)
+
+theorem Wnaf_scalarThenBase_G1 (ctx : WnafCtx F) (k : Nat) (b : Jac F) :
+    (match M.Wnaf.ctxScalar 300 (M.Jac.recommendedWnafForScalar M.G1.empiricalRecommendedWnafForScalar)
+        (ofCtx ctx) (limbsOf 4 k) with
+      | none => none
+      | some (c1, v) =>
+        match M.Wnaf.expBase v b with
+        | none => none
+        | some (v', r) => some (r, (⟨v'.base, c1.scalar⟩ : WnafCtx F)))
+      = ctx.scalarThenBase g1Rec k b :=
+  Wnaf_scalarThenBase_eq g1Rec _ ctx k b (G1_recScalar_eq k)
+    (Nat.le_trans (by decide) (recommendForScalar_range (k % 2 ^ 256)).1.1)
+
+theorem Wnaf_scalarThenBase_G2 (ctx : WnafCtx F) (k : Nat) (b : Jac F) :
+    (match M.Wnaf.ctxScalar 300 (M.Jac.recommendedWnafForScalar M.G2.empiricalRecommendedWnafForScalar)
+        (ofCtx ctx) (limbsOf 4 k) with
+      | none => none
+      | some (c1, v) =>
+        match M.Wnaf.expBase v b with
+        | none => none
+        | some (v', r) => some (r, (⟨v'.base, c1.scalar⟩ : WnafCtx F)))
+      = ctx.scalarThenBase g2Rec k b :=
+  Wnaf_scalarThenBase_eq g2Rec _ ctx k b (G2_recScalar_eq k)
+    (Nat.le_trans (by decide) (recommendForScalar_range (k % 2 ^ 256)).2.1)
 end
 
 end PP.GenMsmLemmas
